@@ -615,6 +615,15 @@ class FnSpec:
             eng.assume(z3.Length(r.term) <= n)
             eng.assume(z3.Length(r.term) >= 0)
             eng.assume((z3.Length(r.term) > 0) == z3.Exists([i], z3.And(rng, cond)), heavy=True)
+            eng.assume(
+                z3.ForAll([j], z3.Implies(z3.And(j >= 0, j < z3.Length(r.term)), z3.Exists([i], z3.And(rng, cond, r.term[j] == elt.term)))),
+                heavy=True,
+            )
+            # completeness: every item that passes the filter appears in the result
+            eng.assume(
+                z3.ForAll([i], z3.Implies(z3.And(rng, cond), z3.Exists([j], z3.And(j >= 0, j < z3.Length(r.term), r.term[j] == elt.term)))),
+                heavy=True,
+            )
             if not getattr(self, "filter_subsequence_axioms", False):
                 return r
             # (opt-in: two more quantified facts per filtered comprehension slow every later obligation of the path)
@@ -627,15 +636,6 @@ class FnSpec:
             eng.assume(z3.Implies(src_distinct, res_distinct), heavy=True)
             # the result is a sub-sequence: it is as long as the source iff nothing was filtered out
             eng.assume((z3.Length(r.term) == n) == z3.ForAll([i], z3.Implies(rng, cond)), heavy=True)
-            eng.assume(
-                z3.ForAll([j], z3.Implies(z3.And(j >= 0, j < z3.Length(r.term)), z3.Exists([i], z3.And(rng, cond, r.term[j] == elt.term)))),
-                heavy=True,
-            )
-            # completeness: every item that passes the filter appears in the result
-            eng.assume(
-                z3.ForAll([i], z3.Implies(z3.And(rng, cond), z3.Exists([j], z3.And(j >= 0, j < z3.Length(r.term), r.term[j] == elt.term)))),
-                heavy=True,
-            )
         return r
 
     # ---- operators ------------------------------------------------------------------------------
